@@ -1,4 +1,5 @@
 """Running the real Python codec and packaging cases for Corr/Serde.v."""
+import own_lookup
 import signal
 
 import common
@@ -101,7 +102,7 @@ def type_hist(chk, fcp, t, depth=0, off=None):
         chk.hist("nesting_depth", depth + 1)
         type_hist(chk, fcp, t.underlying_type, depth + 1)
     if type(t) is T.StructType:
-        for f in fcp.get_struct(t.name).unwrap().fields:
+        for f in own_lookup.struct(fcp, t.name).fields:
             type_hist(chk, fcp, f.type, depth + 1)
 
 
